@@ -53,6 +53,11 @@ def run(ctx):
     # 3. programs
     pkgs = abigen.c09_packages(recs, "ca", per_pkg=36)
     trace, failures = abigen.run_and_collect(ctx, pkgs, procs=8)
+    # every 6th package (quick: the first) is also built with the release profile
+    rel = [dict(p, id=p["id"].replace("ca", "cr")) for p in (pkgs[:1] if ctx.quick else pkgs[::6])]
+    t2, f2 = abigen.run_and_collect(ctx, rel, procs=8, profile="release")
+    trace += t2
+    failures += f2
     rjobs = ret_jobs(ctx, recs)
     rres = abigen.run_config_packages(ctx, [{k: v for k, v in j.items() if k not in ("t", "v")} for j in rjobs], procs=6)
     for j in rjobs:
@@ -90,7 +95,7 @@ def run(ctx):
     return ctx.finish("model_checking", {
         "traces_validated_against_impl": validated,
         "type_trees_in_pool": len(recs), "type_trees_by_depth": depth, "observations": kinds,
-        "packages": len(pkgs), "return_data_scripts": len(rjobs), "build_or_run_failures": len(failures),
+        "packages": len(pkgs), "packages_also_release": len(rel), "return_data_scripts": len(rjobs), "build_or_run_failures": len(failures),
         "pool": {"tlc_seed": 9, "slice": ("VERIF_SEED mod 16 = %d of the depth<=1 trees + named nestings" % (ctx.seed % 16)) if ctx.quick else "all"},
         "constants": {"model_cfgs": cfgs}, "binding_selftest": selftest,
         "samples": [{k: sample[k] for k in ("id", "t", "v", "logs", "out")}] if sample else [],
